@@ -10,6 +10,7 @@ func streamWorkload(name string, count map[string]int, opts streamGenOpts) *Work
 			o := opts
 			if tier == "thorough" && o.bigProb > 0 {
 				o.bigProb *= 2
+				o.bigMax = 12000
 			}
 			return genStreamCase(t, o)
 		},
